@@ -25,8 +25,9 @@ ASSUMPTIONS = ["sub-tree names end in '/'; a name paired with the rRecurs callba
                "'enabled by' names a toggle of the same table, or (rRecur / rRecurp / rRecurs ports with a one-component "
                "name) a toggle inside the sub-tree it disables ('name/toggle', 'name#N/toggle')",
                "the buffer is large enough (walk_ports' own asserts are off in the pinned build type)",
-               "dispatch of a reported address is demanded when no concrete sibling name is a prefix of another and "
-               "literal characters are not digits (as in C18_lookup)"]
+               "dispatch of a reported address is demanded when names_ok holds (the hypothesis of C09_dispatchable_names_ok; "
+               "macro callbacks only) or when no concrete sibling name is a prefix of another and literal characters are "
+               "not digits"]
 
 KIND_SUB = "RPAMXYZ"
 KIND_OBJ_SUB, KIND_OBJ_PTR, KIND_OBJ_ARR = "RX", "PY", "AZ"
